@@ -3,6 +3,7 @@ from __future__ import annotations
 import logging
 import pathlib
 import sys
+import tokenize
 from collections import defaultdict
 from collections.abc import Iterable
 from dataclasses import dataclass
@@ -123,17 +124,27 @@ class Change:  # ChangeSet
         source._check()
 
 
+def read_source(filename) -> tuple[str, str]:
+    """Returns the text and the encoding of a python source file.
+
+    The file is decoded like python does it (utf-8 with or without BOM,
+    or the encoding of a PEP 263 coding cookie).
+    """
+    with tokenize.open(filename) as f:
+        return f.read(), f.encoding
+
+
 class SourceFile:
     def __init__(self, filename: pathlib.Path):
         self.replacements: list[Replacement] = []
         self.filename = filename
-        self.source = self.filename.read_text("utf-8")
+        self.source, self.encoding = read_source(self.filename)
 
     def rewrite(self):
-        new_code = self.new_code()
+        new_code = self.new_code().encode(self.encoding)
 
         with open(self.filename, "bw") as code:
-            code.write(new_code.encode())
+            code.write(new_code)
 
     def virtual_write(self):
         self.source = self.new_code()
@@ -173,7 +184,7 @@ class SourceFile:
 
         self._check()
 
-        code = self.filename.read_text("utf-8")
+        code, _ = read_source(self.filename)
 
         format_whole_file = enforce_formatting() or code == format_code(
             code, self.filename
